@@ -3246,9 +3246,17 @@ func (te *TemplateEngine) createTextParagraph(text string, originalPara *Paragra
 
 // createImageParagraph 创建图片段落
 func (te *TemplateEngine) createImageParagraph(imageData *TemplateImageData, doc *Document) (*Paragraph, error) {
-	// 创建图片配置
-	config := imageData.Config
-	if config == nil {
+	// 创建图片配置。调用者给的配置对象属于调用者的数据：后面 SetImageAltText/SetImageTitle 会往
+	// 配置里写描述和标题，所以这里用它的副本（渲染不修改数据；多个goroutine共用一份数据时也不会竞争）
+	var config *ImageConfig
+	if imageData.Config != nil {
+		copied := *imageData.Config
+		if imageData.Config.Size != nil {
+			size := *imageData.Config.Size
+			copied.Size = &size
+		}
+		config = &copied
+	} else {
 		config = &ImageConfig{
 			Position:  ImagePositionInline,
 			Alignment: AlignCenter,
